@@ -1,5 +1,138 @@
+// Engine M: several independent (Logic, SMTConfig, MainSolver) instances on real threads that hold a baton;
+// the seeded schedule decides who runs and for how many logical ticks; stopper tasks deliver notifyStop /
+// notifyGlobalStop from another thread at a chosen tick. API level only: no Interpret, no std::cout.
 #include "engines.h"
 #include "rt_core.h"
+#include "simengine.h"
+#include "apiload.h"
+
+#include <api/GlobalStop.h>
+#include <logics/ArithLogic.h>
+#include <logics/LogicFactory.h>
+
+#include <memory>
+#include <thread>
+
+using namespace opensmt;
+
 namespace osim {
-int runEngineM(Json const &) { logRaw("{\"ev\":\"harness-error\",\"what\":\"engine M not built\"}"); return 9; }
+
+namespace {
+
+struct TaskState {
+    Task task;
+    Json const * spec = nullptr;
+    Instance inst;
+    int result = 99; // sstat value; 99: did not finish
+    uint64_t checkBegin = 0, checkEnd = 0;
+    bool buildInThread = true;
+    std::string error;
+    // stopper
+    TaskState * target = nullptr;
+    bool global = false;
+    uint64_t deliveredAtTargetTick = 0;
+    bool delivered = false;
+};
+
+void solveBody(TaskState * ts) {
+    schedTaskBegin(&ts->task);
+    try {
+        if (ts->buildInThread) ts->inst.build(*ts->spec);
+        ts->checkBegin = ts->task.ticks;
+        sstat r = ts->inst.solver->check();
+        ts->checkEnd = ts->task.ticks;
+        ts->result = r == s_True ? 1 : r == s_False ? -1 : r == s_Undef ? 0 : 2;
+    } catch (std::exception const & e) {
+        ts->error = std::string(typeid(e).name()) + ": " + e.what();
+    } catch (...) {
+        ts->error = "unknown exception";
+    }
+    schedTaskEnd(&ts->task);
 }
+
+void stopBody(TaskState * ts) {
+    schedTaskBegin(&ts->task);
+    ts->deliveredAtTargetTick = ts->target->task.ticks;
+    ts->delivered = true;
+    if (ts->global) notifyGlobalStop();
+    else ts->target->inst.solver->notifyStop();
+    schedTaskEnd(&ts->task);
+}
+
+} // namespace
+
+int runEngineM(Json const & plan) {
+    setTickBudget((uint64_t)plan["budget_ticks"].asInt(400000000));
+    Json const & tasks = plan["tasks"];
+    size_t n = tasks.size();
+    std::vector<std::unique_ptr<TaskState>> st;
+    for (size_t i = 0; i < n; ++i) {
+        st.emplace_back(new TaskState());
+        st[i]->task.id = (int)i;
+        st[i]->spec = &tasks[i];
+    }
+    bool buildInThread = plan["build_in_thread"].asBool(true);
+    logRaw("{\"ev\":\"run-begin\",\"engine\":\"M\",\"tasks\":" + std::to_string(n) + "}");
+    for (size_t i = 0; i < n; ++i) {
+        std::string kind = tasks[i]["kind"].strOr("solve");
+        if (kind == "solve") {
+            st[i]->buildInThread = buildInThread;
+            if (!buildInThread) {
+                try {
+                    st[i]->inst.build(tasks[i]);
+                } catch (std::exception const & e) {
+                    logRaw(std::string("{\"ev\":\"build-error\",\"task\":") + std::to_string(i) + ",\"what\":" + jsonEscape(e.what()) + "}");
+                    return 8;
+                }
+            }
+        } else {
+            st[i]->target = st.at((size_t)tasks[i]["target"].asInt()).get();
+            st[i]->global = tasks[i]["scope"].strOr("local") == "global";
+        }
+    }
+    std::vector<Task *> tptrs;
+    for (auto & s : st) tptrs.push_back(&s->task);
+    std::vector<Quantum> sched;
+    for (auto const & q : plan["schedule"].arr) {
+        int64_t t = q[1].asInt();
+        if (t == 0) t = 1;
+        sched.push_back(Quantum{(int)q[0].asInt(), t});
+    }
+    schedInit(tptrs, sched);
+    std::vector<std::thread> threads;
+    for (size_t i = 0; i < n; ++i) {
+        if (tasks[i]["kind"].strOr("solve") == "solve") threads.emplace_back(solveBody, st[i].get());
+        else threads.emplace_back(stopBody, st[i].get());
+    }
+    setTickWatch(true);
+    schedRun();
+    setTickWatch(false);
+    for (auto & t : threads) t.join();
+    for (size_t i = 0; i < n; ++i) {
+        TaskState & s = *st[i];
+        std::string rec = "{\"ev\":\"task\",\"id\":" + std::to_string(i) + ",\"kind\":\"" + tasks[i]["kind"].strOr("solve") + "\"";
+        if (s.target) {
+            rec += std::string(",\"delivered\":") + (s.delivered ? "true" : "false") + ",\"at_target_tick\":" + std::to_string(s.deliveredAtTargetTick) +
+                   ",\"target_check_begin\":" + std::to_string(s.target->checkBegin) + ",\"target_check_end\":" + std::to_string(s.target->checkEnd) +
+                   ",\"target_fn\":" + jsonEscape(s.target->task.lastFn ? "" : "");
+        } else {
+            rec += ",\"result\":" + std::to_string(s.result) + ",\"ticks\":" + std::to_string(s.task.ticks) + ",\"check_begin\":" + std::to_string(s.checkBegin) +
+                   ",\"check_end\":" + std::to_string(s.checkEnd);
+            if (!s.error.empty()) rec += ",\"exception\":" + jsonEscape(s.error);
+        }
+        rec += "}";
+        logRaw(rec);
+    }
+    std::string tr = "{\"ev\":\"sched\",\"switches\":" + std::to_string(schedSwitches()) + ",\"trace\":[";
+    auto trace = schedTrace();
+    for (size_t i = 0; i < trace.size() && i < 400; ++i) {
+        if (i) tr += ",";
+        tr += jsonEscape(trace[i]);
+    }
+    tr += "]}";
+    logRaw(tr);
+    logRaw("{\"ev\":\"run-end\"}");
+    return 0;
+}
+
+} // namespace osim
